@@ -16,7 +16,7 @@ From N2 Require Import Base.Base.
 
 Inductive kind := KDir | KFile (content : bytes).
 Definition path := list bytes.
-Definition fsmap := list (path * kind).
+Definition fstree := list (path * kind).
 
 Inductive errno := ENOENT | ENOTDIR | EEXIST | EISDIR.
 
@@ -28,14 +28,14 @@ Definition errno_eqb (a b : errno) : bool :=
 
 Definition path_eqb : path -> path -> bool := list_eqb bytes_eqb.
 
-Fixpoint lookup (fs : fsmap) (p : path) : option kind :=
+Fixpoint lookup (fs : fstree) (p : path) : option kind :=
   match fs with
   | [] => None
   | (q, k) :: r => if path_eqb q p then Some k else lookup r p
   end.
 
 (* what is at an absolute location; the root always is a directory *)
-Definition node_at (fs : fsmap) (p : path) : option kind :=
+Definition node_at (fs : fstree) (p : path) : option kind :=
   match p with [] => Some KDir | _ => lookup fs p end.
 
 (* ---------------------------------------------------------------------------------------- *)
@@ -75,7 +75,7 @@ Definition lp_eqb (a b : lpath) : bool :=
 (* ---------------------------------------------------------------------------------------- *)
 (* system calls.  [cwd] is the absolute location of the working directory (a directory). *)
 
-Definition step_comp (fs : fsmap) (cur : path) (c : bytes) : errno + path :=
+Definition step_comp (fs : fstree) (cur : path) (c : bytes) : errno + path :=
   if fs_is_dotdot c then inr (removelast cur)
   else if fs_is_dot c then inr cur
   else match node_at fs (cur ++ [c]) with
@@ -84,7 +84,7 @@ Definition step_comp (fs : fsmap) (cur : path) (c : bytes) : errno + path :=
        | None => inl ENOENT
        end.
 
-Fixpoint walk (fs : fsmap) (cur : path) (cs : list bytes) : errno + path :=
+Fixpoint walk (fs : fstree) (cur : path) (cs : list bytes) : errno + path :=
   match cs with
   | [] => inr cur
   | c :: r => match step_comp fs cur c with
@@ -107,7 +107,7 @@ Fixpoint split_last (cs : list bytes) : option (list bytes * bytes) :=
   end.
 
 (* mkdir(2) *)
-Definition sys_mkdir (fs : fsmap) (cwd : path) (p : lpath) : errno + fsmap :=
+Definition sys_mkdir (fs : fstree) (cwd : path) (p : lpath) : errno + fstree :=
   match split_last (lp_comps p) with
   | None => inl (if lp_rooted p then EEXIST else ENOENT)
   | Some (pre, c) =>
@@ -123,14 +123,14 @@ Definition sys_mkdir (fs : fsmap) (cwd : path) (p : lpath) : errno + fsmap :=
   end.
 
 (* Path::is_dir: stat succeeds and the node is a directory *)
-Definition is_dir_l (fs : fsmap) (cwd : path) (p : lpath) : bool :=
+Definition is_dir_l (fs : fstree) (cwd : path) (p : lpath) : bool :=
   match walk fs (lp_start cwd p) (lp_comps p) with
   | inr _ => true
   | inl _ => false
   end.
 
 (* open(O_WRONLY|O_CREAT|O_TRUNC) + write_all on a path whose last component is an ordinary name *)
-Definition sys_write_l (fs : fsmap) (cwd : path) (p : lpath) (content : bytes) : errno + fsmap :=
+Definition sys_write_l (fs : fstree) (cwd : path) (p : lpath) (content : bytes) : errno + fstree :=
   match split_last (lp_comps p) with
   | None => inl (if lp_rooted p then EISDIR else ENOENT)
   | Some (pre, c) =>
@@ -156,7 +156,7 @@ Definition name_last_dot (name : bytes) : bool :=
 Definition name_trailing_sep (name : bytes) : bool :=
   match rev name with c :: _ => (c =? 47)%N | [] => false end.
 
-Definition sys_write (fs : fsmap) (cwd : path) (name content : bytes) : errno + fsmap :=
+Definition sys_write (fs : fstree) (cwd : path) (name content : bytes) : errno + fstree :=
   let p := path_new name in
   if name_last_dot name then
     match walk fs (lp_start cwd p) (lp_comps p) with inl e => inl e | inr _ => inl EISDIR end
@@ -168,7 +168,7 @@ Definition sys_write (fs : fsmap) (cwd : path) (name content : bytes) : errno + 
   else sys_write_l fs cwd p content.
 
 (* what a reader finds at a lexical path *)
-Definition read_l (fs : fsmap) (cwd : path) (p : lpath) : option kind :=
+Definition read_l (fs : fstree) (cwd : path) (p : lpath) : option kind :=
   match split_last (lp_comps p) with
   | None => if lp_rooted p then Some KDir else None
   | Some (pre, c) =>
@@ -184,7 +184,7 @@ Definition read_l (fs : fsmap) (cwd : path) (p : lpath) : option kind :=
 Definition anc (p : lpath) (k : nat) : lpath := mkL (lp_rooted p) (firstn k (lp_comps p)).
 
 (* first loop: ancestors with k, k-1, ..., 1 components; returns the number not yet created *)
-Fixpoint cda_probe (fs : fsmap) (cwd : path) (p : lpath) (k unc : nat) : errno + (fsmap * nat) :=
+Fixpoint cda_probe (fs : fstree) (cwd : path) (p : lpath) (k unc : nat) : errno + (fstree * nat) :=
   match k with
   | O => inr (fs, unc)
   | S k' =>
@@ -198,10 +198,10 @@ Fixpoint cda_probe (fs : fsmap) (cwd : path) (p : lpath) (k unc : nat) : errno +
 
 (* A result is the error (None = Ok) and the tree as it is afterwards: a failing operation may
    have created some directories already. *)
-Definition fsres := (option errno * fsmap)%type.
+Definition fsres := (option errno * fstree)%type.
 
 (* second loop: the [n] longest ancestors, shortest first, starting with [j] components *)
-Fixpoint cda_fill (fs : fsmap) (cwd : path) (p : lpath) (j n : nat) : fsres :=
+Fixpoint cda_fill (fs : fstree) (cwd : path) (p : lpath) (j n : nat) : fsres :=
   match n with
   | O => (None, fs)
   | S n' =>
@@ -212,7 +212,7 @@ Fixpoint cda_fill (fs : fsmap) (cwd : path) (p : lpath) (j n : nat) : fsres :=
     end
   end.
 
-Definition create_dir_all (fs : fsmap) (cwd : path) (p : lpath) : fsres :=
+Definition create_dir_all (fs : fstree) (cwd : path) (p : lpath) : fsres :=
   match lp_comps p with
   | [] => (None, fs)
   | cs =>
@@ -225,7 +225,7 @@ Definition create_dir_all (fs : fsmap) (cwd : path) (p : lpath) : fsres :=
 (* ---------------------------------------------------------------------------------------- *)
 (* Work::create_parent_dirs over the names of a step's outputs (as the graph holds them) *)
 
-Fixpoint cpd_loop (fs : fsmap) (cwd : path) (dirs : list lpath) (outs : list bytes) : fsres :=
+Fixpoint cpd_loop (fs : fstree) (cwd : path) (dirs : list lpath) (outs : list bytes) : fsres :=
   match outs with
   | [] => (None, fs)
   | o :: r =>
@@ -240,11 +240,11 @@ Fixpoint cpd_loop (fs : fsmap) (cwd : path) (dirs : list lpath) (outs : list byt
     end
   end.
 
-Definition create_parent_dirs (fs : fsmap) (cwd : path) (outs : list bytes) : fsres :=
+Definition create_parent_dirs (fs : fstree) (cwd : path) (outs : list bytes) : fsres :=
   cpd_loop fs cwd [] outs.
 
 (* task::write_rspfile *)
-Definition write_rspfile (fs : fsmap) (cwd : path) (name content : bytes) : fsres :=
+Definition write_rspfile (fs : fstree) (cwd : path) (name content : bytes) : fsres :=
   let p := path_new name in
   match (match lp_parent p with
          | Some parent => create_dir_all fs cwd parent
@@ -264,14 +264,14 @@ Inductive fsop :=
 | OpDirs (outs : list bytes)              (* create_parent_dirs(build.outs()) *)
 | OpRsp (name content : bytes).           (* write_rspfile *)
 
-Definition fs_apply (fs : fsmap) (cwd : path) (o : fsop) : fsres :=
+Definition fs_apply (fs : fstree) (cwd : path) (o : fsop) : fsres :=
   match o with
   | OpDirs outs => create_parent_dirs fs cwd outs
   | OpRsp n c => write_rspfile fs cwd n c
   end.
 
 (* every operation is attempted; the result of each is kept *)
-Fixpoint fs_run (fs : fsmap) (cwd : path) (ops : list fsop) : list (option errno) * fsmap :=
+Fixpoint fs_run (fs : fstree) (cwd : path) (ops : list fsop) : list (option errno) * fstree :=
   match ops with
   | [] => ([], fs)
   | o :: r =>
@@ -280,10 +280,10 @@ Fixpoint fs_run (fs : fsmap) (cwd : path) (ops : list fsop) : list (option errno
   end.
 
 (* the distinct locations of a map with what is found there, for printing *)
-Fixpoint fs_listing_aux (seen : list path) (fs : fsmap) : list (path * kind) :=
+Fixpoint fs_listing_aux (seen : list path) (fs : fstree) : list (path * kind) :=
   match fs with
   | [] => []
   | (q, k) :: r => if existsb (path_eqb q) seen then fs_listing_aux seen r
                    else (q, k) :: fs_listing_aux (q :: seen) r
   end.
-Definition fs_listing (fs : fsmap) : list (path * kind) := fs_listing_aux [] fs.
+Definition fs_listing (fs : fstree) : list (path * kind) := fs_listing_aux [] fs.
